@@ -434,6 +434,80 @@ pub fn gen_build(seed: u64, tier: &str) -> Vec<String> {
         after_finish(&mut out, 0);
     }
     out.push(format!("cfg mask {}", u32::MAX));
+    // (a) a builder that only borrows the cache is abandoned half-way (a parser giving up): the next builder on that cache must
+    //     start from nothing; (b) speculative parsing: a sub-tree is built, kept, built again behind a checkpoint, reverted and
+    //     built once more -- the three must be one allocation (`ids`), the revert must not cost the cache anything;
+    //     (c) a node and a token at the same position one level below two otherwise equal small nodes whose heads collide
+    //     (mask 0): the second must not be answered with the first
+    let n_fam = if tier == "thorough" { 120 } else { 24 };
+    for i in 0..n_fam {
+        let mut pool = vec![];
+        let (d1, w1, d2, w2) = (1 + rng.below(3), 1 + rng.below(4), 1 + rng.below(3), 1 + rng.below(4));
+        let t1 = random_tree(&mut rng, d1, w1, &mut pool);
+        let t2 = random_tree(&mut rng, d2, w2, &mut pool);
+        out.push(format!("case {}", case));
+        case += 1;
+        out.push("cache user".into());
+        match i % 3 {
+            0 => {
+                // (a)
+                let mut evs = vec![];
+                compact_tree(&t1, &mut rng, &mut evs);
+                let cut = 1 + rng.below(evs.len().max(2) - 1);
+                out.push(format!("wabandon c0 {}", evs[..cut].join(",")));
+                out.push("builder c0".into());
+                emit_tree(&t2, &mut out, &mut rng);
+                out.push("finish".into());
+                after_finish(&mut out, 0);
+                let mut evs2 = vec![];
+                compact_tree(&t1, &mut rng, &mut evs2);
+                out.push(format!("wabandon c0 {}", evs2[..1.max(evs2.len() / 2)].join(",")));
+                let mut evs3 = vec![];
+                compact_tree(&t1, &mut rng, &mut evs3);
+                out.push(format!("wbuild with_cache c0 {}", evs3.join(",")));
+                after_finish(&mut out, 1);
+            }
+            1 => {
+                // (b)
+                let x = RefTree::Node(1, vec![RefTree::Tok(10, TEXTS[1 + i % 8].into()), RefTree::Tok(12, "+".into())]);
+                out.push("builder c0".into());
+                out.push("start 0".into());
+                emit_tree(&x, &mut out, &mut rng);
+                out.push("cp".into()); // k0
+                emit_tree(&x, &mut out, &mut rng);
+                emit_tree(&t1, &mut out, &mut rng);
+                out.push("revert k0".into());
+                emit_tree(&x, &mut out, &mut rng);
+                out.push("cp".into()); // k1
+                emit_tree(&t2, &mut out, &mut rng);
+                out.push("revert k1".into());
+                emit_tree(&x, &mut out, &mut rng);
+                out.push("finish_node".into());
+                out.push("finish".into());
+                after_finish(&mut out, 0);
+                out.push("builder c0".into());
+                out.push("start 0".into());
+                emit_tree(&x, &mut out, &mut rng);
+                out.push("finish_node".into());
+                out.push("finish".into());
+                after_finish(&mut out, 1);
+            }
+            _ => {
+                // (c)
+                out.push("cfg mask 0".into());
+                let leaf = RefTree::Tok(10, TEXTS[1 + i % 8].into());
+                let with_node = RefTree::Node(2, vec![RefTree::Node(3, vec![leaf.clone()])]);
+                let with_tok = RefTree::Node(2, vec![leaf.clone()]);
+                for (gi, inner) in [&with_node, &with_tok, &with_node, &with_tok].iter().enumerate() {
+                    out.push("builder c0".into());
+                    emit_tree(&RefTree::Node(0, vec![RefTree::Node(1, vec![(*inner).clone()])]), &mut out, &mut rng);
+                    out.push("finish".into());
+                    after_finish(&mut out, gi);
+                }
+                out.push(format!("cfg mask {}", u32::MAX));
+            }
+        }
+    }
     out
 }
 
